@@ -809,6 +809,30 @@ fn hist_hidden() -> BoxedStrategy<Hist> {
         .boxed()
 }
 
+/// A crowd: one to three regular aircraft among hundreds of others that are heard for a few reports each (copies of
+/// the first plan with their own address, a start point of their own and one short segment). What is decoded for an
+/// aircraft may not depend on how many others there are.
+fn hist_crowd() -> BoxedStrategy<Hist> {
+    (hist(false), prop_oneof![260usize..600, 600usize..1500], any::<u64>())
+        .prop_map(|(mut h, n, salt)| {
+            let mut r = vcore::ev::SplitMix::new(salt);
+            let proto = h.plans[0].clone();
+            for k in 0..n {
+                let mut p = proto.clone();
+                p.icao = (0x300000 + k as u32 * 0x401 + (r.below(4) as u32) * 0x100000) & 0xffffff;
+                p.kind = 0;
+                p.lat = (p.lat + (r.below(2000) as f64 - 1000.0) * 0.001).clamp(-89.9, 89.9);
+                p.lon = ((p.lon + (r.below(4000) as f64 - 2000.0) * 0.001 + 540.0) % 360.0) - 180.0;
+                p.bearing = r.below(360) as f64;
+                p.segs = vec![Seg { n: 2 + r.below(5) as u8, period: 0.5, gap: 99 }];
+                p.ops = (0..16).map(|_| r.next() as u8).collect();
+                h.plans.push(p);
+            }
+            h
+        })
+        .boxed()
+}
+
 fn hist_lowalt() -> BoxedStrategy<Hist> {
     hist(true)
         .prop_map(|mut h| {
@@ -1032,7 +1056,7 @@ fn classes(ctx: &Ctx, what: &str, h: &Hist) {
 }
 
 pub fn run(ctx: &Ctx) {
-    ctx.set_rule("histories: 1-4 aircraft, each a plan (start from the C04 strata incl. flights along the 87th parallel, bearing, speed in {0,140,450,700, uniform 0-700} kt, 1-6 segments of 1-29 reports every 0.4-0.6 s separated by gaps from {9.5, 9.99, 10.01, 10.5, 12, 20, 30, 60, 170, 179.9, 180.1, 190, 470, 600, 1000, 1700, 1790, 1860, 2000, 7200 s}, mostly alternating parity, loss levels 0/20/60/90 %, duplicate receptions +<=0.3 s, neighbours delivered in swapped order across any gap (truthful timestamps) or with exchanged timestamps when < 1.5 s apart, in a quarter of the plans a block of 1-3 consecutive reports delivered late (right after some later report of the aircraft, truthful timestamps: a lagging receiver), DF17 (any capability) or DF18 (any control field) carriers, every airborne (9-18, 20-22) and surface (5-8) type code, altitudes unavailable / 25 ft / Gillham coded, any movement / track / status bits, a quarter of the reports followed by a non-position message of the same aircraft (velocity, identification, status, operational status, target state, type code 0, DF11, DF4) and such messages also arriving during gaps, parity-selective loss (8-67 consecutive reports lose every report of one parity), addresses independent or from one family differing in a few bits / byte order); the airborne alias family 'gap just long enough to fly k latitude / m longitude zones (+-40 km) at <= 690 kt, then airborne again'; surface scenarios add landings, take-offs and the adversarial 'last airborne fix exactly k surface zones away, long gap, then surface' family, with a receiver reference within 36 NM of every surface site and |lat| <= 80; 'hidden reference' scenarios are surface scenarios in which the decoder is given no receiver position at all; 'low altitude' scenarios put every aircraft on one common site, give airborne reports within 15 NM of it altitudes below 1000 ft and let the decoder move the receiver reference to such fixes (as decode1090 always does). Frames from the independent encoder through Message::try_from and decode_positions; and as a JSONL file through the real decode1090 binary (its own loop around decode_position) and, split into chunks, through the Python binding's decode_1090t_vec (positions within 25 m and equal to the library's). End to end: 1-4 slow aircraft (<= 100 kt, airborne within 100 NM / on the ground within 30 NM of their receiver) are served to the real jet1090 binary over one or two Beast TCP sources with receiver references far apart (airborne aircraft may be heard by both receivers, surface aircraft by their own; a third of the aircraft report no altitude); one fast aircraft is heard 18 s apart by two receivers whose Beast clocks differ (the reports must not be paired); every position it prints, and every position its /all table holds, must be within 25 m of a position that aircraft reported. Oracle: every attached position within 25 m of the encoded one; per-aircraft outputs bit-identical with and without the other aircraft (fixed reference). Non-trivial = history with >= 1 positioned report and (a gap > 9 s or >= 2 aircraft); distinct by hash of the report list.");
+    ctx.set_rule("histories: 1-4 aircraft, each a plan (start from the C04 strata incl. flights along the 87th parallel, bearing, speed in {0,140,450,700, uniform 0-700} kt, 1-6 segments of 1-29 reports every 0.4-0.6 s separated by gaps from {9.5, 9.99, 10.01, 10.5, 12, 20, 30, 60, 170, 179.9, 180.1, 190, 470, 600, 1000, 1700, 1790, 1860, 2000, 7200 s}, mostly alternating parity, loss levels 0/20/60/90 %, duplicate receptions +<=0.3 s, neighbours delivered in swapped order across any gap (truthful timestamps) or with exchanged timestamps when < 1.5 s apart, in a quarter of the plans a block of 1-3 consecutive reports delivered late (right after some later report of the aircraft, truthful timestamps: a lagging receiver), DF17 (any capability) or DF18 (any control field) carriers, every airborne (9-18, 20-22) and surface (5-8) type code, altitudes unavailable / 25 ft / Gillham coded, any movement / track / status bits, a quarter of the reports followed by a non-position message of the same aircraft (velocity, identification, status, operational status, target state, type code 0, DF11, DF4) and such messages also arriving during gaps, parity-selective loss (8-67 consecutive reports lose every report of one parity), addresses independent or from one family differing in a few bits / byte order); the airborne alias family 'gap just long enough to fly k latitude / m longitude zones (+-40 km) at <= 690 kt, then airborne again'; surface scenarios add landings, take-offs and the adversarial 'last airborne fix exactly k surface zones away, long gap, then surface' family, with a receiver reference within 36 NM of every surface site and |lat| <= 80; 'crowd' histories put 1-4 regular aircraft among 260-1500 others heard for a few reports each; 'hidden reference' scenarios are surface scenarios in which the decoder is given no receiver position at all; 'low altitude' scenarios put every aircraft on one common site, give airborne reports within 15 NM of it altitudes below 1000 ft and let the decoder move the receiver reference to such fixes (as decode1090 always does). Frames from the independent encoder through Message::try_from and decode_positions; and as a JSONL file through the real decode1090 binary (its own loop around decode_position) and, split into chunks, through the Python binding's decode_1090t_vec (positions within 25 m and equal to the library's). End to end: 1-4 slow aircraft (<= 100 kt, airborne within 100 NM / on the ground within 30 NM of their receiver) are served to the real jet1090 binary over one or two Beast TCP sources with receiver references far apart (airborne aircraft may be heard by both receivers, surface aircraft by their own; a third of the aircraft report no altitude); one fast aircraft is heard 18 s apart by two receivers whose Beast clocks differ (the reports must not be paired); every position it prints, and every position its /all table holds, must be within 25 m of a position that aircraft reported. Oracle: every attached position within 25 m of the encoded one; per-aircraft outputs bit-identical with and without the other aircraft (fixed reference). Non-trivial = history with >= 1 positioned report and (a gap > 9 s or >= 2 aircraft); distinct by hash of the report list.");
     ctx.assume("speeds <= 700 kt along great circles (rhumb lines along the 87th parallel); receiver reference fixed (update_reference = None) except in the 'low altitude' scenarios, where every fix that can move it lies within 15 NM of the one site all surface traffic is on");
     ctx.assume("surface aircraft are stationary during gaps, so the 40 NM premise of the property stays true");
     let st = Stats { reports: AtomicU64::new(0), positioned: AtomicU64::new(0), surface_positioned: AtomicU64::new(0), reference_moves: AtomicU64::new(0), fillers: AtomicU64::new(0) };
@@ -1055,6 +1079,10 @@ pub fn run(ctx: &Ctx) {
         });
         run_prop(ctx, &format!("hidden-{s}"), n_low / shards, hist_hidden(), |h| {
             classes(ctx, "surface traffic, no receiver position given", h);
+            check_hist(ctx, &st, h)
+        });
+        vcore::ev::run_prop_shrink(ctx, &format!("crowd-{s}"), ctx.tier.pick(32u32, 480u32) / shards, 24, hist_crowd(), |h| {
+            ctx.class(if h.plans.len() > 600 { "crowd of more than 600 aircraft" } else { "crowd of 260-600 aircraft" });
             check_hist(ctx, &st, h)
         });
     });
